@@ -1,3 +1,5 @@
+pub mod checks;
+pub mod comp;
 pub mod model;
 pub mod sim;
 pub mod util;
